@@ -215,6 +215,10 @@ UTIL_KINDS = ["int", "float", "uint8", "int8", "F", "view", "ro", "float32", "nd
 # ... and by the Mask2D constructor (anything astype("bool") understands: non-zero = masked)
 CTOR_KINDS = UTIL_KINDS + ["truthy_i", "truthy_f", "list_int", "list_rows", "mask2d", "sub2d", "complex"]
 KERNEL_KINDS = ["list", "ndarray", "npint", "kernel2d", "tuple"]
+# numpy UNSIGNED kernel sides make the footprint range of blurring_mask_2d_from empty on the current /repo (-np.uint8(3) == 253):
+# fixes/C10_unsigned_kernel.diff converts the sides in DeriveMask2D.blurring_from.  Switch on once that patch is committed to /repo
+# (the check must exit 0 on the current tree); the kinds then replace "tuple" in every other public blurring case.
+UNSIGNED_KERNELS = False
 GEOM_KINDS = ["scalar", "ints", "list", "ndarray", "tuple"]
 EXPS = [-40, 40, -20, 0]
 
@@ -263,6 +267,8 @@ def mk_kernel(aa, k, kk):
     if kk == "list": return [kh, kw]
     if kk == "ndarray": return np.array([kh, kw])
     if kk == "npint": return (np.int64(kh), np.int32(kw))
+    if kk == "npuint8" and 0 < kh < 256 and 0 < kw < 256: return (np.uint8(kh), np.uint8(kw))
+    if kk == "npuint64" and kh > 0 and kw > 0: return np.array([kh, kw], dtype=np.uint64)
     if kk == "kernel2d" and kh > 0 and kw > 0: return aa.Kernel2D.ones(shape_native=(kh, kw), pixel_scales=1.0).shape_native
     return (kh, kw)
 
@@ -693,6 +699,8 @@ def run_case(inp):
     # the util functions get an ndarray of kind ak (when the kind is one they accept), the constructor any kind
     arr, keep = mk_array(M, ak if (ak in UTIL_KINDS or op not in ("util", "checkedge", "blurutil")) else None, aa)
     raw = arr if isinstance(arr, np.ndarray) else np.array(M, dtype=bool)
+    if UNSIGNED_KERNELS and kk == "tuple" and op in ("blur", "blurgrid") and alt != 3 and "kk" in inp:
+        kk = ("npuint8", "npuint64")[(len(M) + len(M[0])) % 2]
     kern = mk_kernel(aa, inp["k"], kk) if "k" in inp else None
     args = [x for x in (keep, kern, psa, orga) if x is not None]
     fp0 = [fp(x) for x in args]
@@ -760,6 +768,7 @@ def run_hist(aa, inp):
     kerns = {}                                            # kernel-shape objects are held and re-used across the reads of a history
     def kern_of(p):
         key = (p["k"][0], p["k"][1], p.get("kk", "tuple"))
+        if UNSIGNED_KERNELS and key[2] == "tuple" and "kk" in p and p.get("_op") in ("blur", "blurgrid"): key = key[:2] + ("npuint8",)
         if key not in kerns: kerns[key] = mk_kernel(aa, p["k"], key[2]); kerns[key] = (kerns[key], fp(kerns[key]))
         return kerns[key][0]
 
@@ -881,6 +890,7 @@ def run_hist(aa, inp):
             steps.append(f"HTouch {o}%nat {czl([SEL_NAMES.index(n) for n in names])}"); log.append(["touch", o, names, held])
         elif kind == "read":
             _, oref, op, held, order, p = st
+            p = dict(p, _op=op)
             o = oref % len(objs); ob = objs[o]
             M = cur(ob) if op in ("views", "blur", "blurgrid", "contents") else mask_out(ob.raw)
             term, out, py_ok, detail = _observe(aa, op, p, M, lambda: ob.m, lambda: ob.raw, g, handles(ob, held),
